@@ -419,7 +419,12 @@ func main() {
 				continue
 			}
 		}
-		if _, dup := byName[f.String()]; dup {
+		if g, dup := byName[f.String()]; dup {
+			// a declared method and the synthetic wrapper of a promoted unexported method of another package can print the same
+			// name (the method identities differ by package): the declared function is the one netpoll's interfaces dispatch to
+			if g.Synthetic != "" && f.Synthetic == "" {
+				byName[f.String()] = f
+			}
 			continue
 		}
 		byName[f.String()] = f
@@ -446,7 +451,12 @@ func main() {
 					for i := 0; i < ms.Len(); i++ {
 						fn := prog.MethodValue(ms.At(i))
 						if fn != nil {
-							mj[ms.At(i).Obj().Name()] = fn.String()
+							nm := ms.At(i).Obj().Name()
+							// unexported methods are package-qualified: of two entries with the same bare name keep the module's own
+							if _, have := mj[nm]; have && (ms.At(i).Obj().Pkg() == nil || !strings.HasPrefix(ms.At(i).Obj().Pkg().Path(), "github.com/cloudwego/netpoll")) {
+								continue
+							}
+							mj[nm] = fn.String()
 						}
 					}
 					methods[regType(t)] = mj
